@@ -147,6 +147,11 @@ def spec_call(ex, st, e, cx, k):
         cn = e.args[1].value if isinstance(e.args[1], ast.Constant) else e.args[1].id
         ids = [ex.repo.class_ids[cn]]
         return k(st, SV(BOOL, z3.And(v.z != 0, ex.clsof(v.z) == ids[0])))
+    if nm in ('path_exists', 'path_join'):
+        vs = [ex.pure(st, a, cx) for a in e.args]
+        if nm == 'path_exists':
+            return k(st, SV(BOOL, ex.uf('path_exists', z3.StringSort(), z3.BoolSort())(vs[0].z)))
+        return k(st, SV(STR, ex.uf('path_join2', z3.StringSort(), z3.StringSort(), z3.StringSort())(vs[0].z, vs[1].z)))
     if nm == 'isa':
         v = ex.pure(st, e.args[0], cx)
         cn = e.args[1].value
